@@ -16,7 +16,7 @@ RULE = ("twin worlds from the same pre-state: world A evaluates call_batch(kwarg
 ASSUMPTIONS = ["exceptions are compared by class and original message", "stores are compared as sets of (qualified name, argument hash, result type, value, invocation list)"]
 COMPONENTS = {"real": ["call_batch / map_over_range, LocalRunnerBackend.batch_run, runner, storage backends", "fork lifetimes"],
               "stub": ["generated program", "uuid4, clock"]}
-REACH = ["with_warm_elements", "batches", "map_over_range", "raise_first", "with_failing_element", "with_duplicates", "with_prememoized", "empty_batches",
+REACH = ["one_shot_iterable_range", "with_warm_elements", "batches", "map_over_range", "raise_first", "with_failing_element", "with_duplicates", "with_prememoized", "empty_batches",
          "partial_prefix", "restart_before_batch"]
 
 
@@ -32,7 +32,14 @@ def gen_case(seed):
         xs = [1]
     pre = sorted(set(x for x in xs if rng.random() < 0.4) | (set([rng.randrange(4)]) if rng.random() < 0.3 else set()))
     warm = sorted(set(x for x in xs if rng.random() < 0.35))
-    return {"seed": seed, "prog": prog, "xs": xs, "via": via, "raise_first": rng.random() < 0.5, "pre": pre, "warm": warm,
+    # how the range of map_over_range is presented: the documentation promises any Iterable
+    shape = rng.choice(["list", "list", "tuple", "generator", "iterator", "map", "range"]) if via == "map_over_range" else "list"
+    if shape == "range":
+        lo = rng.randrange(3)
+        xs = list(range(lo, lo + max(1, min(len(xs), 4 - lo))))
+        pre = [x for x in pre if x in xs] or pre
+        warm = [x for x in warm if x in xs]
+    return {"seed": seed, "prog": prog, "xs": xs, "via": via, "shape": shape, "raise_first": rng.random() < 0.5, "pre": pre, "warm": warm,
             "cache": rng.random() < 0.6, "restart": rng.random() < 0.5, "backend": rng.choice(["fs", "fs", "memory"])}
 
 
@@ -98,7 +105,12 @@ def run_world(root, case, world_name):
                 if world_name == "A":
                     try:
                         if case["via"] == "map_over_range":
-                            r = f.map_over_range(x=list(case["xs"]))
+                            xs_ = list(case["xs"])
+                            shape = case.get("shape", "list")
+                            rng_ = {"list": lambda: xs_, "tuple": lambda: tuple(xs_), "generator": lambda: (v for v in xs_),
+                                    "iterator": lambda: iter(xs_), "map": lambda: map(int, xs_),
+                                    "range": lambda: range(xs_[0], xs_[-1] + 1)}[shape]()
+                            r = f.map_over_range(x=rng_)
                             res = {"ok": sorted([k, _summ(v)] for k, v in r.items())}
                         else:
                             r = f.call_batch([{"x": x} for x in case["xs"]], raise_first_exception=case["raise_first"])
@@ -141,6 +153,8 @@ def execute(case):
     failing = [s for s in slots if s[0] == "exc"]
     if case["via"] == "map_over_range":
         stats["map_over_range"] = 1
+        if case.get("shape") in ("generator", "iterator", "map"):
+            stats["one_shot_iterable_range"] = 1
     if failing:
         stats["with_failing_element"] = 1
     if len(set(xs)) < len(xs):
